@@ -55,6 +55,8 @@ MANIFEST_ENTRY = dict(
     ref='DESIGN.md section 4 / C09',
 )
 
+RUN_TIME_LIMIT = int(os.environ.get('VERIF_C09_PASS_LIMIT', '120'))       # seconds per pass; the router needs milliseconds
+
 REFUSALS = ('The trivial placement is not valid', 'No valid placement found', 'Cannot layout circuit on disconnected qudits',
             'Cannot route circuit on disconnected qudits', 'Machine model is too small')
 
@@ -235,7 +237,8 @@ def observe(job):
             pre_apply_swaps = [[int(q) for q in op.location] for op in circ if isinstance(op.gate, SwapGate)]
         _Count.now = name
         try:
-            _run(p, circ, data)
+            with _c08._Limit(RUN_TIME_LIMIT):
+                _run(p, circ, data)
         except MachineryError:
             raise
         except Exception as e:           # noqa
